@@ -10,6 +10,7 @@ export VERIF_DIR="$PWD"
 ID="${1:?property id}"; TIER="${2:-quick}"; shift; shift || true
 REPO="${VERIF_REPO:-/repo}"
 BIN="$VERIF_DIR/.build/bin"
+FT_IDS="C04 C06"   # properties with case groups on the virtual clock
 mkdir -p "$BIN"
 MODFLAG=""
 if [ "$REPO" != "/repo" ]; then
@@ -34,6 +35,10 @@ case "$ID" in
     ;;
   *)
     build "$BIN/vcheck" ./cmd/vcheck
+    case " $FT_IDS " in *" $ID "*)
+      # workers on the Go runtime virtual clock (faketime tag; needs CGO_ENABLED=0, with cgo the clock never advances): long real pauses and hour-long playback in no time
+      (cd harness && CGO_ENABLED=0 go build $MODFLAG -tags "verif faketime" -o "$BIN/vcheck-ft" ./cmd/vcheck) || { echo "INCONCLUSIVE property=$ID reason=build of the faketime worker failed"; exit 2; } ;;
+    esac
     exec "$BIN/vcheck" -property "$ID" -tier "$TIER" "$@"
     ;;
 esac
